@@ -73,7 +73,9 @@ def _random(rnd):
             # (mostly ample; sometimes shorter than the work that is pending at the stop)
             'stop_timeout': rnd.choice([60, 60, 60, 3, 4, 6]),
             # events without any data item (f_args=()): sent with block.event('put')
-            'nodata': mode in 'ws' and rnd.random() < 0.2}
+            'nodata': mode in 'ws' and rnd.random() < 0.2,
+            # debug messages of the block enabled (must not change anything)
+            'debug': rnd.random() < 0.25}
 
 
 def stimuli(tier, seed, ctx):
@@ -143,6 +145,8 @@ def execute(stim):
             st['nstart'] = v = st.get('nstart', 0) + 1
             if v > st.get('nputs', 0):
                 v = 9               # all puts have started: this is the stop_data run
+        if not isinstance(v, int) or isinstance(v, bool):
+            v = -9                  # (verdicts are total: a run that did not get its argument)
         rec('start', id=v)
         how = 'ok'
         try:
@@ -179,7 +183,8 @@ def execute(stim):
                 on_success=edzed.Event(probe, 'success'), on_error=edzed.Event(probe, 'error'),
                 on_cancel=edzed.Event(probe, 'cancel'),
                 on_output=edzed.Event(probe, 'out', efilter=edzed.not_from_undef),
-                stop_data=sdata, stop_timeout=stim['stop_timeout'] * TICK)
+                stop_data=sdata, stop_timeout=stim['stop_timeout'] * TICK,
+                **({'debug': True} if stim.get('debug') else {}))
             edzed.Not('keepalive').connect(probe)
             st['loop'], st['t0'] = loop, loop.time()
             task = asyncio.create_task(circuit.run_forever())
